@@ -414,6 +414,122 @@ var ruleWalkDiscipline = &core.Rule{ID: "R03.2", Min: 6,
 		}
 	}}
 
+// R03.4
+var ruleElemPointers = &core.Rule{ID: "R03.4", Min: 1,
+	Doc: "result nodes are not addressed inside a slice that still grows: in the functions that build detection results (the chain clone and the copy functions) no address of a slice element is stored or returned while an append to the same slice can still follow (append may move the elements to a new array: links taken before point into the old one, whose later elements are never filled in)",
+	Run: func(c *core.Ctx, s *core.Sink) {
+		m := getWalk(c)
+		fns := append([]*ssa.Function{m.chain}, m.clones...)
+		n := 0
+		for _, f := range fns {
+			if f == nil || f.Blocks == nil {
+				continue
+			}
+			// the slice variable a value belongs to: connected through phis and appends
+			family := func(root ssa.Value) map[ssa.Value]bool {
+				fam := map[ssa.Value]bool{}
+				var grow func(v ssa.Value)
+				grow = func(v ssa.Value) {
+					if v == nil || fam[v] {
+						return
+					}
+					if _, ok := v.Type().Underlying().(*types.Slice); !ok {
+						return
+					}
+					fam[v] = true
+					switch x := v.(type) {
+					case *ssa.Phi:
+						for _, e := range x.Edges {
+							grow(e)
+						}
+					case *ssa.Call:
+						if core.IsBuiltin(&x.Call, "append") {
+							grow(x.Call.Args[0])
+						}
+					}
+					if refs := v.Referrers(); refs != nil {
+						for _, ref := range *refs {
+							switch y := ref.(type) {
+							case *ssa.Phi:
+								grow(y)
+							case *ssa.Call:
+								if core.IsBuiltin(&y.Call, "append") && y.Call.Args[0] == v {
+									grow(y)
+								}
+							}
+						}
+					}
+				}
+				grow(root)
+				return fam
+			}
+			for _, b := range f.Blocks {
+				for _, in := range b.Instrs {
+					ia, ok := in.(*ssa.IndexAddr)
+					if !ok {
+						continue
+					}
+					if _, isSl := ia.X.Type().Underlying().(*types.Slice); !isSl {
+						continue
+					}
+					// does the element address escape (stored as a value, returned)?
+					escapes := false
+					for _, ref := range *ia.Referrers() {
+						switch y := ref.(type) {
+						case *ssa.Store:
+							if y.Val == ssa.Value(ia) {
+								escapes = true
+							}
+						case *ssa.Return:
+							escapes = true
+						}
+					}
+					if !escapes {
+						continue
+					}
+					n++
+					key := fmt.Sprintf("%s: element address #%d", core.FName(f), n)
+					fam := family(ia.X)
+					later := ""
+					reach := core.Reach(b)
+					for v := range fam {
+						call, ok := v.(*ssa.Call)
+						if !ok || !core.IsBuiltin(&call.Call, "append") {
+							continue
+						}
+						after := false
+						if call.Block() == b {
+							after = core.InstrIndex(call) > core.InstrIndex(ia)
+						}
+						if !after && call.Block() != b && reach[call.Block()] {
+							after = true
+						}
+						if !after && call.Block() == b && reach[b] && core.InstrIndex(call) < core.InstrIndex(ia) {
+							after = b.Dominates(b) && loopBlock(b) // the same block again, one round later
+						}
+						if after {
+							later = c.Pos(call.Pos())
+						}
+					}
+					s.Check(later == "", key, c.Pos(ia.Pos()), "no append to that slice can follow", "the address of a slice element is kept (as a parent link or as the result) while the slice is still appended to at "+later+": when append moves the elements, the link points into the old array and the chain behind it is lost")
+				}
+			}
+		}
+		if n == 0 {
+			s.OK("no result node is addressed inside a slice", c.Pos(m.chain.Pos()), "every result node is allocated on its own")
+		}
+	}}
+
+// loopBlock: b can reach itself.
+func loopBlock(b *ssa.BasicBlock) bool {
+	for _, sc := range b.Succs {
+		if sc == b || core.Reach(sc)[b] {
+			return true
+		}
+	}
+	return false
+}
+
 // R03.3
 var ruleCloneChain = &core.Rule{ID: "R03.3", Min: 5,
 	Doc: "chain clone: returns the clone of the receiver (with the parameter map); loops p = parent(receiver); p != nil; p = parent(p); each ancestor is cloned without parameters and linked as parent of the previous clone; a copy is a call of the clone function or a node allocated in place; it copies type, aliases, extension and nothing else",
